@@ -62,12 +62,23 @@ SELECTIONS = [
     # Win7 flavours may only be composed for and executed by net1
     ("only leaves\nonly tutorial_gui\n", {"vm1": "only CentOS\n", "vm2": "", "vm3": "only Ubuntu\n"}, "net1 net2",
      {"no_vm2_net2": "WinXP, Win7"}),
+    # a worker set in which one worker cannot compose some of the selected tests (net5 only provides the Fedora variant of
+    # vm1, the tutorial3.remote variants need CentOS) while other tests run on both: the flat nodes of those tests are
+    # incompatible with one worker and still unexplored for the other
+    ("only normal..tutorial1,leaves..tutorial3.remote.object.control.decorator.util,"
+     "leaves..tutorial3.remote.object.control.decorator.no_util\n",
+     {"vm1": "", "vm2": "only Win10\n", "vm3": "only Ubuntu\n"}, "net1 net5"),
+    # the mixed-set selection below with four workers starting on different flat nodes
+    ("only leaves..tutorial_get,normal..tutorial_gui\n",
+     {"vm1": "only CentOS\n", "vm2": "only Win10\n", "vm3": "only Ubuntu\n"}, "net1 net2 net3 net4"),
     # a reversible setup test selected through a nested set (normal.gui) that is also the setup of tests of another set
     ("only leaves..tutorial_get..explicit_noop,leaves..tutorial_get..implicit_both,normal..tutorial_gui..client_noop\n",
      {"vm1": "only CentOS\n", "vm2": "only Win10\n", "vm3": "only Ubuntu\n"}, "net1"),
 ]
 MIXED_SETS = len(SELECTIONS) - 1
-RESTRICTED_WORKER = len(SELECTIONS) - 2
+MIXED_SETS_4 = len(SELECTIONS) - 2
+PARTLY_INCOMPATIBLE = len(SELECTIONS) - 3
+RESTRICTED_WORKER = len(SELECTIONS) - 4
 
 
 def gen_parsed_spec(rng, idx=None):
@@ -75,7 +86,7 @@ def gen_parsed_spec(rng, idx=None):
     sel = SELECTIONS[idx % len(SELECTIONS)] if idx is not None else rng.choice(SELECTIONS)
     tests_str, vm_strs, nets = sel[:3]
     cfg = {"test_timeout": 1000}
-    mixed = idx is not None and idx % len(SELECTIONS) == len(SELECTIONS) - 1
+    mixed = idx is not None and idx % len(SELECTIONS) in (MIXED_SETS, MIXED_SETS_4)
     if rng.random() < 0.4:
         cfg["max_tries"] = rng.choice([1, 2, 2, 3, 1, 2, 2, 3, 0])
         if rng.random() < 0.3:
